@@ -226,6 +226,32 @@ def run_isolated(cmd, env=None, timeout=3600, max_crashes=60, cwd=None, skip_fla
 # ------------------------------------------------------------------------------------------------
 # pipeline G helpers: generate scenarios with TLC, replay them in parallel shards
 
+def run_apalache(module, init, inv, length, cinit=None, timeout=600):
+    """apalache-mc check --init=<init> --inv=<inv> --length=<n> on spec/<module>.tla (a typed, data-free abstract machine).
+    Returns True (no error up to that length), False (counterexample); anything else is a machinery failure."""
+    out = tempfile.mkdtemp(prefix="apalache.", dir=scratch())
+    cmd = ["timeout", str(timeout), "apalache-mc", "check", f"--out-dir={out}", f"--init={init}", f"--inv={inv}", f"--length={length}"]
+    if cinit:
+        cmd.append(f"--cinit={cinit}")
+    r = sh(cmd + [os.path.join(VERIF, "spec", module + ".tla")], cwd=out)
+    shutil.rmtree(out, ignore_errors=True)
+    if "The outcome is: NoError" in r.stdout:
+        return True
+    if "The outcome is: Error" in r.stdout or "Found a violation" in r.stdout or "outcome is: Error" in r.stdout:
+        return False
+    raise MachineryError(f"apalache-mc on {module} ({init} => {inv}): rc={r.returncode}\n" + (r.stdout + r.stderr)[-1500:])
+
+
+def inductive(module, indinv, goals=(), cinit=None):
+    """Init => IndInv, IndInv /\\ Next => IndInv', IndInv => goal for every goal - for the unbounded parameters of the module."""
+    if not run_apalache(module, "Init", indinv, 0, cinit) or not run_apalache(module, indinv, indinv, 1, cinit):
+        raise MachineryError(f"{module}: {indinv} is not inductive")
+    for g in goals:
+        if not run_apalache(module, indinv, g, 0, cinit):
+            raise MachineryError(f"{module}: {indinv} does not imply {g}")
+    return 2 + len(goals)
+
+
 def cfg_text(constants=None, invariants=(), properties=(), spec="Spec", deadlock=False, extra=""):
     t = ""
     if constants:
